@@ -8,6 +8,7 @@ import (
 	"io"
 	"math"
 	"reflect"
+	"sort"
 	"time"
 	"unicode/utf8"
 
@@ -317,8 +318,8 @@ func FromGoType(obj interface{}) Object {
 		return NewList(items)
 	case map[string]interface{}:
 		m := make(map[string]Object, len(obj))
-		for k, v := range obj {
-			valueObj := FromGoType(v)
+		for _, k := range sortedMapKeys(obj) {
+			valueObj := FromGoType(obj[k])
 			if IsError(valueObj) {
 				return valueObj
 			}
@@ -338,8 +339,8 @@ func FromGoType(obj interface{}) Object {
 // in the map is of a type that can't be converted, an error is returned.
 func AsObjects(m map[string]any) (map[string]Object, error) {
 	result := make(map[string]Object, len(m))
-	for k, v := range m {
-		switch v := v.(type) {
+	for _, k := range sortedMapKeys(m) {
+		switch v := m[k].(type) {
 		case nil:
 			result[k] = Nil
 		case Object:
@@ -357,6 +358,19 @@ func AsObjects(m map[string]any) (map[string]Object, error) {
 		}
 	}
 	return result, nil
+}
+
+// sortedMapKeys returns the keys of the given map in sorted order. The
+// conversions of a map visit its entries in this order, so that the error
+// reported for a map with several unconvertible values is always the error of
+// the entry with the smallest key.
+func sortedMapKeys(m map[string]any) []string {
+	keys := make([]string, 0, len(m))
+	for k := range m {
+		keys = append(keys, k)
+	}
+	sort.Strings(keys)
+	return keys
 }
 
 // *****************************************************************************
@@ -938,8 +952,8 @@ func (c *MapConverter) To(obj Object) (interface{}, error) {
 	keyType := reflect.TypeOf("")
 	mapType := reflect.MapOf(keyType, c.valueType)
 	gMap := reflect.MakeMapWithSize(mapType, tMap.Size())
-	for k, v := range tMap.items {
-		conv, err := c.valueConverter.To(v)
+	for _, k := range tMap.SortedKeys() {
+		conv, err := c.valueConverter.To(tMap.items[k])
 		if err != nil {
 			return nil, err
 		}
@@ -951,7 +965,11 @@ func (c *MapConverter) To(obj Object) (interface{}, error) {
 func (c *MapConverter) From(obj interface{}) (Object, error) {
 	m := reflect.ValueOf(obj)
 	o := make(map[string]Object, m.Len())
-	for _, key := range m.MapKeys() {
+	keys := m.MapKeys()
+	sort.Slice(keys, func(i, j int) bool {
+		return keys[i].String() < keys[j].String()
+	})
+	for _, key := range keys {
 		v := m.MapIndex(key)
 		conv, err := c.valueConverter.From(v.Interface())
 		if err != nil {
@@ -994,7 +1012,8 @@ func (c *StructConverter) To(obj Object) (interface{}, error) {
 		value := c.goType.New()
 		// Get the underlying struct so that we can set its fields.
 		structValue := value.Elem()
-		for k, value := range obj.items {
+		for _, k := range obj.SortedKeys() {
+			value := obj.items[k]
 			// If the struct has a field with the same name as a key, set it.
 			if f := structValue.FieldByName(k); f.CanSet() {
 				if attr, ok := c.goType.GetAttribute(k); ok {
